@@ -614,6 +614,13 @@ static void comp_laws(void)
                 if (same != (c[i][j] == 0)) FAIL("MISMATCH", "comp-value", okind[i], "comp returned %d for {%.40s} and {%.40s}", c[i][j], last[i].b, last[j].b);
                 if (same) probe_hit("comp_of_equal_values");
             }
+            /* array lists and vectors compare element by element: EQUAL exactly when they hold equal elements in the same positions
+               (placeholders included) -- two different sequences that compare EQUAL in both directions are not an order on values */
+            if (okind[i] == K_LIST_A || okind[i] == K_VEC_A) {
+                int same = last[i].len == last[j].len && !memcmp(last[i].b, last[j].b, last[i].len);
+                if (same != (c[i][j] == 0)) FAIL("MISMATCH", "comp-value", okind[i], "comp returned %d for {%.60s} and {%.60s}", c[i][j], last[i].b, last[j].b);
+                if (same) probe_hit("comp_of_equal_values");
+            }
             if (c[i][j] != -c[j][i]) FAIL("MISMATCH", "comp-antisymmetric", okind[i], "comp(a,b)=%d but comp(b,a)=%d", c[i][j], c[j][i]);
             for (int l = 0; l < NSLOT; l++) {
                 if (c[j][l] == 100 || c[i][l] == 100) continue;
